@@ -216,6 +216,10 @@ type env struct {
 	resolvable       virtual.ResolvableHandleAllocator
 	resolverFails    atomic.Bool
 	removalsNotified atomic.Int64
+	kernelRegistered atomic.Bool
+	// logNotifications: removal notifications are logged (drivers with
+	// one call at a time; the concurrent ones only count them).
+	logNotifications bool
 	sectorAllocator  pool.SectorAllocator
 	filePool         pool.FilePool
 	fileAllocator    virtual.FileAllocator
@@ -242,6 +246,7 @@ func defaultAttributesSetter(requested virtual.AttributesMask, attributes *virtu
 type envOptions struct {
 	fuse       bool                        // FUSE handle allocator instead of the NFS one
 	normalizer virtual.ComponentNormalizer // nil: case sensitive
+	quiet      bool                        // do not log removal notifications (concurrent drivers)
 }
 
 func newEnv(tr *common.Trace) *env { return newEnvWith(tr, envOptions{}) }
@@ -256,6 +261,7 @@ func newEnvWith(tr *common.Trace, opt envOptions) *env {
 		leafSet:     map[virtual.Leaf]int{},
 	}
 	e.fetchFail.Store(true)
+	e.logNotifications = !opt.quiet
 	if opt.fuse {
 		e.fuseAllocator = virtual.NewFUSEHandleAllocator(random.FastThreadSafeGenerator)
 		e.handleAllocator = e.fuseAllocator
@@ -753,13 +759,21 @@ func (e *env) record(obj, call, variant string, f func() string) bool {
 // probeFUSE: the lock of the FUSE handle allocator has no TryLock hook.
 // It is probed by the next call of the real code that needs it
 // exclusively: RegisterRemovalNotifier must return (a lock left behind by
-// the previous call makes it wait for ever, which the watchdog reports).
+// the previous call makes it wait for ever, which blockedKind reports).
+//
+// The first notifier that is registered models the FUSE kernel (see
+// kernelRemovalNotifier); the fixtures are built before it exists, so a
+// directory that notifies while no notifier is registered is seen too.
 func (e *env) probeFUSE(after string) bool {
 	if e.fuseAllocator == nil {
 		return true
 	}
+	notifier := virtual.FUSERemovalNotifier(func(parent uint64, name path.Component) {})
+	if e.kernelRegistered.CompareAndSwap(false, true) {
+		notifier = e.kernelRemovalNotifier
+	}
 	_, hung := runWatched(func() string {
-		e.fuseAllocator.RegisterRemovalNotifier(func(parent uint64, name path.Component) { e.removalsNotified.Add(1) })
+		e.fuseAllocator.RegisterRemovalNotifier(notifier)
 		return "ok"
 	})
 	if hung {
@@ -768,6 +782,45 @@ func (e *env) probeFUSE(after string) bool {
 		return false
 	}
 	return true
+}
+
+// inodeNumberOf returns the inode number of a directory (an attribute
+// that is obtained without taking the directory's lock); 0 if it has none.
+func inodeNumberOf(d virtual.PrepopulatedDirectory) (n uint64) {
+	defer func() { recover() }()
+	var out virtual.Attributes
+	d.VirtualGetAttributes(ctxBG, virtual.AttributesMaskInodeNumber, &out)
+	return out.GetInodeNumber()
+}
+
+// kernelRemovalNotifier is the environment of the FUSE handle allocator:
+// what the FUSE server registers sends FUSE_NOTIFY_INVAL_ENTRY/DELETE to
+// the kernel, which needs the inode lock of the parent directory; a
+// LOOKUP in that directory holds the same inode lock until the server
+// has answered it, and the server answers it under the mutex of the
+// directory. So the delivery of a notification about directory D can
+// only complete if the mutex of D can be acquired while it is pending.
+// The model performs that LOOKUP itself: VirtualLookup of an unrelated
+// name with the attributes the FUSE server always asks for. A call that
+// notifies while it holds D's mutex never returns (and is reported as a
+// hang of that call from a goroutine snapshot, like every other hang).
+func (e *env) kernelRemovalNotifier(parent uint64, name path.Component) {
+	e.removalsNotified.Add(1)
+	var d virtual.PrepopulatedDirectory
+	index := -1
+	for i, c := range e.snapshotDirs() {
+		if inodeNumberOf(c) == parent {
+			d, index = c, i
+			break
+		}
+	}
+	if d != nil {
+		var out virtual.Attributes
+		d.VirtualLookup(ctxBG, comp("unrelated-kernel-lookup"), virtual.AttributesMaskInodeNumber|virtual.AttributesMaskFileType, &out)
+	}
+	if e.logNotifications {
+		e.tr.Emit(common.Ev{"ev": "notify", "obj": "dir", "dir": index, "name": name.String(), "lookup_done": d != nil})
+	}
 }
 
 // ---------------------------------------------------------------------------
